@@ -7,9 +7,14 @@ from vlib.core import Machinery
 ALLKINDS = {"capture", "all", "first", "hash"}
 
 
-def consts(names=2, black=0, rw=0, agg=0, routes=1, dests=1, kinds=ALLKINDS, dev=""):
+ORDERS = ("", "false", "true")      # validate_order as written in the configuration text ("" = absent)
+
+
+def consts(names=2, black=0, rw=0, agg=0, routes=1, dests=1, kinds=ALLKINDS, dev="", orders=("",)):
+    # the answers of the order register are explored wherever a table may have an order setting written
+    newer = {True} if set(orders) == {""} else {True, False}
     return dict(Names={"n%d" % i for i in range(1, names + 1)}, MaxBlack=black, MaxRw=rw, MaxAgg=agg,
-                MaxRoutes=routes, MaxDests=dests, Kinds=set(kinds), Dev=dev)
+                MaxRoutes=routes, MaxDests=dests, Kinds=set(kinds), Dev=dev, Orders=set(orders), NewerVals=newer)
 
 
 def mc_grid(ctx, grid, workers=4, timeout=2400):
@@ -32,7 +37,14 @@ DEVS = {
     "dropraw_ignored": consts(agg=1, routes=1, kinds={"capture"}),
     "route_filter_on_original_name": consts(rw=1, routes=1, kinds={"capture"}),
     "dest_filter_ignored": consts(routes=1, dests=1, kinds={"all"}),
+    # the order check of the gate (validate_order as configured)
+    "invalid_counted_as_ooo": consts(routes=1, kinds={"capture"}, orders=ORDERS),
+    "ooo_counted_invalid": consts(routes=1, kinds={"capture"}, orders=ORDERS),
+    "order_check_when_off": consts(routes=1, kinds={"capture"}, orders={"", "false"}),
+    "no_return_ooo": consts(routes=1, kinds={"capture"}, orders={"true"}),
+    "order_before_validate": consts(routes=0, orders={"true"}),
 }
+MC_INVARIANTS = ("DispatchLoopIsDecl", "ExactlyOneFate", "OrderSeesValidOnly", "InvalidNeverOoo", "OooOnlyWhenOn")
 
 
 def mc_nonvacuity(ctx, devs):
@@ -40,7 +52,7 @@ def mc_nonvacuity(ctx, devs):
     for d in devs:
         c = dict(DEVS[d], Dev=d)
         r = ctx.tlc("Table", "Table_mc.cfg", consts=c, workers=2, timeout=600, expect_ok=False, count=False, heap="2g")
-        if r["violated"] not in ("DispatchLoopIsDecl", "ExactlyOneFate"):
+        if r["violated"] not in MC_INVARIANTS:
             raise Machinery("deviation %s is not rejected by the model invariants (vacuity); log %s" % (d, r["log"]))
     ctx.cov["deviations_rejected_by_tlc"] = sorted(devs)
 
@@ -92,8 +104,9 @@ def c01_lines(rng, names):
 def run_driver(ctx, cases, name, timeout=3000):
     """-> (events, crashed)"""
     cf = ctx.write_ndjson(name + "_cases.ndjson",
-                          [dict(id=c["id"], names=c["names"], t=c["t"], lvl=c["lvl"], lvm=c["lvm"],
-                                lines=[dict(nm=l["nm"], line=l["line"]) for l in c["lines"]]) for c in cases])
+                          [dict(id=c["id"], names=c["names"], t=c["t"], lvl=c["lvl"], lvm=c["lvm"], ord=c.get("ord", ""),
+                                lines=[dict(nm=l["nm"], line=l["line"], rel=l.get("rel", ""), ref=l.get("ref", -1))
+                                       for l in c["lines"]]) for c in cases])
     tf = os.path.join(ctx.out, name + "_trace.ndjson")
     res = ctx.go_test("disp", run="^TestDispatch$", timeout=timeout, expect_ok=False,
                       env=dict(VERIF_DISP_CASES=cf, VERIF_DISP_TRACE=tf))
@@ -105,6 +118,9 @@ def run_driver(ctx, cases, name, timeout=3000):
             prog = ctx.read_ndjson("disp_progress.ndjson")
         except Exception:
             pass
+        if "driver bug:" in res["text"]:
+            raise Machinery("disp driver gave up on a malformed case (%s); log %s" % (
+                [x for x in res["text"].splitlines() if "driver bug:" in x][0][:200], res["log"]))
         crashed = dict(log=res["log"], last=prog[-3:], tail=res["text"][-2500:])
         if "panic:" not in res["text"] and "fatal error:" not in res["text"] and "test timed out" not in res["text"]:
             raise Machinery("disp driver failed without a panic (rc=%s); log %s\n%s" % (res["rc"], res["log"], res["text"][-2000:]))
@@ -112,7 +128,7 @@ def run_driver(ctx, cases, name, timeout=3000):
         if e["ev"] == "probe" and not e["refused"]:
             raise Machinery("something listens on 127.0.0.1:%d: the refusing-endpoint observation is not usable" % e["port"])
         if e["ev"] == "d" and e["stray"] != 0:
-            raise Machinery("unexpected counter movement (slow_conn/slow_spool/out_of_order/aggregator > 1) in table %s line %s: "
+            raise Machinery("unexpected counter movement (slow_conn/slow_spool/aggregator > 1) in table %s line %s: "
                             "the observation scheme does not hold" % (e["id"], e["li"]))
     if not crashed and not any(e["ev"] == "end" for e in events):
         raise Machinery("disp driver wrote no end event")
@@ -129,10 +145,10 @@ def project(events):
                      aggs=[dict(acc=a.get("acc") or [], drop=a["drop"]) for a in (t.get("aggs") or [])],
                      routes=[dict(kind=r["kind"], acc=r.get("acc") or [], dests=[d or [] for d in (r.get("dests") or [])])
                              for r in (t.get("routes") or [])])
-            out.append(dict(ev="tbl", id=e["id"], t=t, lvl=e["lvl"], lvm=e["lvm"]))
+            out.append(dict(ev="tbl", id=e["id"], t=t, lvl=e["lvl"], lvm=e["lvm"], ord=e["ord"]))
         elif e["ev"] == "d":
             out.append(dict(ev="d", id=e["id"], li=e["li"], nm=e["nm"], line=e["line"], text=e["text"], key=e["key"],
-                            keynd=e["keynd"], o=e["o"], bad=e["bad"]))
+                            keynd=e["keynd"], tsn=e["tsn"], o=e["o"], bad=e["bad"]))
     return out
 
 
@@ -225,6 +241,10 @@ def selftest_binding(ctx, events, tag):
         done.append("bad-record key")
     if run(lambda r: r["o"].__setitem__("invalid", 0), "inv", lambda r: r["o"]["invalid"] == 1):
         done.append("invalid counter")
+    if run(lambda r: r["o"].__setitem__("ooo", 1), "ooo", lambda r: r["o"]["ooo"] == 0 and r["o"]["invalid"] == 0):
+        done.append("out_of_order counter")
+    if run(lambda r: r["o"].update(invalid=0, ooo=1), "invooo", lambda r: r["o"]["invalid"] == 1):
+        done.append("invalid line counted out_of_order")
     if len(done) < 2:
         raise Machinery("binding self-test found nothing to corrupt")
     ctx.cov["binding_selftests"] = "passed: " + ", ".join(done)
@@ -237,7 +257,7 @@ def describe_c01(case, ev):
     exp = case["exp"][ln["nm"]][ln["v"]]
     o = ev["o"]
     kinds = [r["kind"] for r in case["t"]["routes"]]
-    for cn in ("in", "invalid", "black", "unroutable"):
+    for cn in ("in", "invalid", "ooo", "black", "unroutable"):
         if o[cn] != exp[cn]:
             return ("counter-%s fate=%s" % (cn, exp["fate"]),
                     "counter %s moved by %d, expected %d (line %s, expected fate %s)" % (cn, o[cn], exp[cn], ln["nm"], exp["fate"]))
